@@ -721,7 +721,7 @@ Section invariant.
   Lemma Inv_entity_removed_client pr : Inv pr -> Inv (entity_removed_client pr).
   Proof.
     intros HI. unfold entity_removed_client. cbv zeta. apply foldl_inv.
-    - apply Inv_set_u2e; [exact HI|]. intros u e Hl. apply foldl_delete_lookup in Hl.
+    - peel_irr. apply Inv_set_u2e; [exact HI|]. intros u e Hl. apply foldl_delete_lookup in Hl.
       eapply i_u2e; eassumption.
     - intros a [u e] Hin Ha. apply elem_of_list_In in Hin. apply elem_of_list_filter in Hin as [_ Hin].
       apply elem_of_map_to_list in Hin. apply Inv_send_up; [exact Ha|]. right. eapply (i_u2e pr HI); eassumption.
